@@ -309,97 +309,111 @@ static mut SCAN_A: u64 = 0;
 static mut SCAN_B: u64 = 0;
 static mut SCAN_SEQ_OLD: u64 = 0;
 static mut SCAN_SEQ_NEW: u64 = 0;
-fn ghost_scan(_file: &mut File, _offset: u64, _size: u64) -> Result<(Vec<ScannedRecord>, u64)> {
+// The shape of the chain (old records present? pending records present?) is
+// concrete per harness instance: a Vec whose LENGTH is symbolic made the
+// SAT query take > 10 minutes; sizes and sequence numbers stay symbolic.
+fn ghost_scan_impl(old: bool, new: bool) -> Result<(Vec<ScannedRecord>, u64)> {
     let mut v = Vec::new();
     unsafe {
-        if SCAN_A > 0 {
+        if old {
             v.push(ScannedRecord { sequence: SCAN_SEQ_OLD, payload: Vec::new(), total_size: SCAN_A });
         }
-        if SCAN_B > 0 {
+        if new {
             v.push(ScannedRecord { sequence: SCAN_SEQ_NEW, payload: Vec::new(), total_size: SCAN_B });
         }
         Ok((v, SCAN_A + SCAN_B))
     }
 }
+fn ghost_scan_00(_f: &mut File, _o: u64, _s: u64) -> Result<(Vec<ScannedRecord>, u64)> { ghost_scan_impl(false, false) }
+fn ghost_scan_10(_f: &mut File, _o: u64, _s: u64) -> Result<(Vec<ScannedRecord>, u64)> { ghost_scan_impl(true, false) }
+fn ghost_scan_01(_f: &mut File, _o: u64, _s: u64) -> Result<(Vec<ScannedRecord>, u64)> { ghost_scan_impl(false, true) }
+fn ghost_scan_11(_f: &mut File, _o: u64, _s: u64) -> Result<(Vec<ScannedRecord>, u64)> { ghost_scan_impl(true, true) }
 
-verif_proof_ghost! { [C05 C01]
-    #[kani::unwind(6)]
-    #[kani::stub(crate::io::wal::EmbeddedWal::scan_records, crate::io::wal::verif_wal::ghost_scan)]
-    fn c05_step_scan() {
-        let p = any_pre();
-        // the live handle may have a stale write head (the scan re-derives it)
-        let (mut wal, file, header, pending) = build(&p);
-        if symbolic() {
-            unsafe {
-                SCAN_A = p.wh - p.pb;
-                SCAN_B = p.pb;
-                SCAN_SEQ_OLD = p.cseq;
-                SCAN_SEQ_NEW = p.seq;
-            }
-            kani::assume(p.cseq >= 1 || p.wh == p.pb);
-        }
-        let recs = wal.pending_records();
-        match &recs {
-            Ok(v) => {
-                assert!(v.len() == pending, "[C05] pending_records does not return exactly the records after the checkpoint");
-                if symbolic() {
-                    if p.pb > 0 {
-                        assert!(v[0].sequence == p.seq, "[C05] pending_records returned the wrong record");
-                    }
-                    assert!(wal.pending_bytes == p.pb && wal.sequence == p.seq, "[C05] scan changed the bookkeeping of pending records");
-                    check_step(&p, &wal, None);
+fn shaped_pre(old: bool, new: bool) -> Pre {
+    let p = any_pre();
+    kani::assume((p.wh - p.pb > 0) == old && (p.pb > 0) == new);
+    kani::assume(p.cseq >= 1 || !old);
+    unsafe {
+        SCAN_A = p.wh - p.pb;
+        SCAN_B = p.pb;
+        SCAN_SEQ_OLD = p.cseq;
+        SCAN_SEQ_NEW = p.seq;
+    }
+    p
+}
+
+fn step_scan(old: bool, new: bool) {
+    let p = shaped_pre(old, new);
+    let (mut wal, file, header, pending) = build(&p);
+    let recs = wal.pending_records();
+    match &recs {
+        Ok(v) => {
+            assert!(v.len() == pending, "[C05] pending_records does not return exactly the records after the checkpoint");
+            if symbolic() {
+                if p.pb > 0 {
+                    assert!(v[0].sequence == p.seq, "[C05] pending_records returned the wrong record");
                 }
+                assert!(wal.pending_bytes == p.pb && wal.sequence == p.seq, "[C05] scan changed the bookkeeping of pending records");
+                check_step(&p, &wal, None);
             }
-            Err(_) => assert!(false, "[C05] scan failed on a well-formed log"),
         }
-        kani::cover!(p.pb > 0 && p.wh == p.rs, "scan of an exactly full region");
-        kani::cover!(p.pb > 0 && p.rs - p.wh < HDR && p.wh < p.rs, "scan with a short tail");
-        check_scan_native(&mut wal, &file, &header, pending, None);
-        leak(recs);
-        leak(wal);
-        leak(file);
+        Err(_) => assert!(false, "[C05] scan failed on a well-formed log"),
     }
+    kani::cover!(!new || p.wh == p.rs, "scan of an exactly full region");
+    kani::cover!(!new || (p.rs - p.wh < HDR && p.wh < p.rs), "scan with a short tail");
+    check_scan_native(&mut wal, &file, &header, pending, None);
+    leak(recs);
+    leak(wal);
+    leak(file);
 }
 
-verif_proof_ghost! { [C05 C01 C04]
-    #[kani::unwind(6)]
-    #[kani::stub(crate::io::wal::EmbeddedWal::scan_records, crate::io::wal::verif_wal::ghost_scan)]
-    fn c05_step_open() {
-        let p = any_pre();
-        kani::assume(p.cseq >= 1 || p.wh == p.pb);
-        unsafe {
-            SCAN_A = p.wh - p.pb;
-            SCAN_B = p.pb;
-            SCAN_SEQ_OLD = p.cseq;
-            SCAN_SEQ_NEW = p.seq;
+fn step_open(old: bool, new: bool) {
+    let p = shaped_pre(old, new);
+    let header = Header {
+        magic: *b"MV2\0",
+        version: 0x0201,
+        footer_offset: 0,
+        wal_offset: p.off,
+        wal_size: p.rs,
+        wal_checkpoint_pos: kani::any(),
+        wal_sequence: p.cseq,
+        toc_checksum: [0u8; 32],
+    };
+    let file = fake_file();
+    reset_log();
+    let r = EmbeddedWal::open(&file, &header);
+    match &r {
+        Ok(wal) => {
+            assert!(wal.pending_bytes == p.pb, "[C05] open computed the wrong pending byte count");
+            assert!(wal.sequence == p.seq && wal.checkpoint_sequence == p.cseq, "[C05] open computed wrong sequence numbers");
+            // (with nothing pending and less than a header of room, open may restart the log at offset 0)
+            assert!(wal.write_head == p.wh || (wal.write_head == 0 && p.pb == 0), "[C05] open did not place the write head after the last record");
+            check_step(&p, wal, None);
+            kani::cover!(!new || p.wh == p.rs, "open of an exactly full region");
         }
-        let header = Header {
-            magic: *b"MV2\0",
-            version: 0x0201,
-            footer_offset: 0,
-            wal_offset: p.off,
-            wal_size: p.rs,
-            wal_checkpoint_pos: kani::any(),
-            wal_sequence: p.cseq,
-            toc_checksum: [0u8; 32],
-        };
-        let file = fake_file();
-        reset_log();
-        let r = EmbeddedWal::open(&file, &header);
-        match &r {
-            Ok(wal) => {
-                assert!(wal.pending_bytes == p.pb, "[C05] open computed the wrong pending byte count");
-                assert!(wal.sequence == p.seq && wal.checkpoint_sequence == p.cseq, "[C05] open computed wrong sequence numbers");
-                assert!(wal.write_head == p.wh, "[C05] open did not place the write head after the last record");
-                check_step(&p, wal, None);
-                kani::cover!(p.pb > 0 && p.wh == p.rs, "open of an exactly full region");
-            }
-            Err(_) => assert!(false, "[C05] open failed on a well-formed log"),
-        }
-        leak(r);
-        leak(file);
+        Err(_) => assert!(false, "[C05] open failed on a well-formed log"),
     }
+    leak(r);
+    leak(file);
 }
+
+macro_rules! scan_harness {
+    ($name:ident, $stub:ident, $f:ident, $old:expr, $new:expr) => {
+        verif_proof_ghost! { [C05 C01 C04]
+            #[kani::unwind(6)]
+            #[kani::stub(crate::io::wal::EmbeddedWal::scan_records, crate::io::wal::verif_wal::$stub)]
+            fn $name() { $f($old, $new); }
+        }
+    };
+}
+scan_harness!(c05_step_scan_empty, ghost_scan_00, step_scan, false, false);
+scan_harness!(c05_step_scan_old_only, ghost_scan_10, step_scan, true, false);
+scan_harness!(c05_step_scan_pending_only, ghost_scan_01, step_scan, false, true);
+scan_harness!(c05_step_scan_old_and_pending, ghost_scan_11, step_scan, true, true);
+scan_harness!(c05_step_open_empty, ghost_scan_00, step_open, false, false);
+scan_harness!(c05_step_open_old_only, ghost_scan_10, step_open, true, false);
+scan_harness!(c05_step_open_pending_only, ghost_scan_01, step_open, false, true);
+scan_harness!(c05_step_open_old_and_pending, ghost_scan_11, step_open, true, true);
 
 // ===========================================================================
 // Part 2 — the on-disk record format, on the in-memory disk with data.
@@ -581,4 +595,98 @@ verif_proof_io! { [C05 C01]
 verif_proof_io! { [C05 C01]
     #[kani::unwind(14)]
     fn c05_scan_empty() { scan_image::<100>(0, 1); }
+}
+
+// ===========================================================================
+// C22: the scan on ARBITRARY region bytes: terminates, never panics, and
+// whatever it returns lies inside the region.
+// ===========================================================================
+verif_proof_io! { [C22 C05 C20]
+    #[kani::unwind(5)]
+    fn c22_wal_scan_arbitrary_bytes() {
+        let mut file = open_zero_disk(100);
+        let a: [u8; 50] = kani::any();
+        let b: [u8; 50] = kani::any();
+        disk_put(&mut file, 0, &a);
+        disk_put(&mut file, 50, &b);
+        let r = EmbeddedWal::scan_records(&mut file, 0, 100);
+        match &r {
+            Ok((v, next)) => {
+                assert!(*next <= 100, "[C22] scan ran past the end of the log region");
+                assert!(v.len() <= 2, "[C22] scan returned more records than fit in the region");
+                let mut total = 0u64;
+                let mut j = 0;
+                while j < v.len() {
+                    assert!(v[j].total_size == 48 + v[j].payload.len() as u64 && v[j].payload.len() >= 1, "[C22] scan returned a malformed record");
+                    total += v[j].total_size;
+                    j += 1;
+                }
+                assert!(total == *next, "[C22] scan's next head is not the end of the records it returned");
+                kani::cover!(v.len() == 1, "one record accepted from arbitrary bytes");
+            }
+            Err(e) => {
+                assert!(matches!(e, MemvidError::WalCorruption { .. }) || matches!(e, MemvidError::Io { .. }), "[C22] scan failed with an unexpected error kind");
+                kani::cover!(true, "corruption reported");
+            }
+        }
+        leak(r);
+        leak(file);
+    }
+}
+
+// ===========================================================================
+// C18: a read-only log handle never writes, and refuses every mutator.
+// ===========================================================================
+fn read_only_ops(old: bool, new: bool) {
+    let p = shaped_pre(old, new);
+    let header = Header {
+        magic: *b"MV2\0",
+        version: 0x0201,
+        footer_offset: 0,
+        wal_offset: p.off,
+        wal_size: p.rs,
+        wal_checkpoint_pos: kani::any(),
+        wal_sequence: p.cseq,
+        toc_checksum: [0u8; 32],
+    };
+    let file = fake_file();
+    reset_log();
+    let r = EmbeddedWal::open_read_only(&file, &header);
+    match r {
+        Ok(mut wal) => {
+            assert!(unsafe { WRITES } == 0, "[C18] opening the log read-only wrote to the file");
+            let recs = wal.pending_records();
+            assert!(unsafe { WRITES } == 0, "[C18] scanning a read-only log wrote to the file");
+            match &recs {
+                Ok(v) => assert!(v.len() == if new { 1 } else { 0 }, "[C18] read-only scan does not report exactly the pending records"),
+                Err(_) => assert!(false, "[C18] read-only scan failed on a well-formed log"),
+            }
+            leak(recs);
+            let payload: [u8; 3] = kani::any();
+            let a = wal.append_entry(&payload);
+            assert!(matches!(a, Err(MemvidError::Lock(_))), "[C18] append on a read-only log was not refused");
+            leak(a);
+            let mut h2 = header.clone();
+            let c = wal.record_checkpoint(&mut h2);
+            assert!(matches!(c, Err(MemvidError::Lock(_))), "[C18] checkpoint on a read-only log was not refused");
+            assert!(h2.wal_sequence == header.wal_sequence && h2.wal_checkpoint_pos == header.wal_checkpoint_pos, "[C18] refused checkpoint changed the header");
+            leak(c);
+            assert!(!wal.should_checkpoint(), "[C18] a read-only log asks for a checkpoint");
+            assert!(unsafe { WRITES } == 0, "[C18] a refused mutation wrote to the file");
+            kani::cover!(true, "read-only handle exercised");
+            leak(wal);
+        }
+        Err(e) => { leak(e); assert!(false, "[C18] read-only open failed on a well-formed log"); }
+    }
+    leak(file);
+}
+verif_proof_ghost! { [C18]
+    #[kani::unwind(6)]
+    #[kani::stub(crate::io::wal::EmbeddedWal::scan_records, crate::io::wal::verif_wal::ghost_scan_11)]
+    fn c18_wal_read_only_old_and_pending() { read_only_ops(true, true); }
+}
+verif_proof_ghost! { [C18]
+    #[kani::unwind(6)]
+    #[kani::stub(crate::io::wal::EmbeddedWal::scan_records, crate::io::wal::verif_wal::ghost_scan_00)]
+    fn c18_wal_read_only_empty() { read_only_ops(false, false); }
 }
